@@ -221,20 +221,28 @@ ComponentPtr ComponentEntity::takeComponent(const std::string &name, bool search
 
 bool ComponentEntity::replaceComponent(size_t index, const ComponentPtr &newComponent)
 {
-    bool status = false;
-    auto oldComponent = component(index);
-    ParentedEntityPtr parent = nullptr;
-    if (oldComponent != nullptr) {
-        parent = oldComponent->parent();
+    if ((newComponent == nullptr) || (index >= pFunc()->mComponents.size())) {
+        return false;
     }
 
-    if (removeComponent(index)) {
-        pFunc()->mComponents.insert(pFunc()->mComponents.begin() + ptrdiff_t(index), newComponent);
-        newComponent->pFunc()->setParent(parent);
-        status = true;
+    auto oldComponent = pFunc()->mComponents[index];
+    if (oldComponent == newComponent) {
+        return true;
     }
 
-    return status;
+    // Add the new component in the usual way (this detaches it from its previous parent, sets its
+    // parent, and refuses a component that is this entity or one of its ancestors), then move it
+    // from the end of the list to the position of the component it replaces.
+    if (!doAddComponent(newComponent)) {
+        return false;
+    }
+    auto &components = pFunc()->mComponents;
+    components.pop_back();
+    auto result = std::find(components.begin(), components.end(), oldComponent);
+    oldComponent->pFunc()->removeParent();
+    *result = newComponent;
+
+    return true;
 }
 
 bool ComponentEntity::replaceComponent(const std::string &name, const ComponentPtr &component, bool searchEncapsulated)
